@@ -17,7 +17,8 @@ RULE = ("Complete enumeration. Compression maps: every n in 1..N_MAX (quick 150 
         "the same order. Because the helpers are memoised, a second sub-check walks the whole (N,W) domain in other query "
         "orders inside one process (W descending, N and W descending, W outer, seeded shuffles). A Hypothesis sub-check adds random finite float matrices. Every enumerated item is non-trivial "
         "except n=1 / (N,W)=(1,1); distinct by construction (one item per n / per (N,W))."
-        ' Round trips also for float32/float16/int64/int32/int16/uint8/bool matrices with values up to the type maximum; every sub-check also in a python -O process.')
+        ' Round trips also for float32/float16/int64/int32/int16/uint8/bool matrices with values up to the type maximum; every sub-check also in a python -O process.'
+        ' Two results of one size are kept alive; one pass queries with NumPy integer sizes first in its process.')
 ASSUMPTIONS = ["private helper names are taken from the property's anchors; if one disappears the check exits 2 (machinery), not 1",
                "values: float equality (==), so -0.0/+0.0 and NaN payloads are outside the statement; |x| <= 1e300"]
 
